@@ -249,18 +249,24 @@ func sameSpec(got []ipfix.TemplateFieldSpecifier, want []wire.Field) bool {
 }
 
 func runC04(c *c04Case) (v verdict, sig string, err error) {
+	v, sig, err, _, _ = runC04x(c)
+	return
+}
+
+// runC04x additionally returns the cache and the model at the end of the history (used by C11, C10).
+func runC04x(c *c04Case) (v verdict, sig string, err error, cache *flowCache, model map[int]*wire.Template) {
 	if len(c.Slots) == 0 {
-		return v, "", fmt.Errorf("bad case: no slots")
+		return v, "", fmt.Errorf("bad case: no slots"), nil, nil
 	}
-	cache := newFlowCache(c.Proto)
-	model := map[int]*wire.Template{}
+	cache = newFlowCache(c.Proto)
+	model = map[int]*wire.Template{}
 	reannounced := map[int]bool{}
 	dataAfterRe := false
 	seq := uint32(1)
 	hdr := func() wire.Msg { seq++; return wire.Msg{Proto: c.Proto, Seq: seq, Time: 1000 + seq, Domain: 7, Count: 1} }
 	for i, op := range c.Ops {
 		if op.Slot < 0 || op.Slot >= len(c.Slots) {
-			return v, "", fmt.Errorf("bad case: slot index")
+			return v, "", fmt.Errorf("bad case: slot index"), cache, model
 		}
 		sl := c.Slots[op.Slot]
 		addr := wire.ExactIP(sl.Addr)
@@ -270,7 +276,7 @@ func runC04(c *c04Case) (v verdict, sig string, err error) {
 		switch op.Op {
 		case "announce", "announce+data":
 			if op.Tpl == nil || op.Tpl.ID != sl.ID {
-				return v, "", fmt.Errorf("bad case: announce without template for the slot's id")
+				return v, "", fmt.Errorf("bad case: announce without template for the slot's id"), cache, model
 			}
 			m := hdr()
 			kind := "tpl"
@@ -283,13 +289,13 @@ func runC04(c *c04Case) (v verdict, sig string, err error) {
 			}
 			res, perr := cache.decodeFlow(addr, m.Bytes())
 			if perr != nil {
-				return v, "panic", step("%v", perr)
+				return v, "panic", step("%v", perr), cache, model
 			}
 			if res.Nil || res.Err != nil {
-				return v, "announce", step("announcement rejected: nil=%v err=%v", res.Nil, res.Err)
+				return v, "announce", step("announcement rejected: nil=%v err=%v", res.Nil, res.Err), cache, model
 			}
 			if d := wire.CompareRecords(res.Recs, wire.ExpectMsg(&m)); d != "" {
-				return v, "inmsg", step("data in the announcing message: %s", d)
+				return v, "inmsg", step("data in the announcing message: %s", d), cache, model
 			}
 			if model[op.Slot] != nil {
 				reannounced[op.Slot] = true
@@ -298,38 +304,38 @@ func runC04(c *c04Case) (v verdict, sig string, err error) {
 		case "data":
 			tp := model[op.Slot]
 			if tp == nil {
-				return v, "", fmt.Errorf("bad case: data before announce at step %d", i)
+				return v, "", fmt.Errorf("bad case: data before announce at step %d", i), cache, model
 			}
 			m := hdr()
 			m.Sets = append(m.Sets, wire.Set{Kind: "data", Tpl: tp, Recs: op.Recs, Pad: op.Pad})
 			res, perr := cache.decodeFlow(addr, m.Bytes())
 			if perr != nil {
-				return v, "panic", step("%v", perr)
+				return v, "panic", step("%v", perr), cache, model
 			}
 			if res.Nil || res.Err != nil {
-				return v, "data-error", step("data under the exporter's current template failed: nil=%v err=%v", res.Nil, res.Err)
+				return v, "data-error", step("data under the exporter's current template failed: nil=%v err=%v", res.Nil, res.Err), cache, model
 			}
 			if d := wire.CompareRecords(res.Recs, wire.ExpectMsg(&m)); d != "" {
-				return v, "wrong-template", step("not decoded with the exporter's latest template: %s", d)
+				return v, "wrong-template", step("not decoded with the exporter's latest template: %s", d), cache, model
 			}
 			if reannounced[op.Slot] {
 				dataAfterRe = true
 			}
 		case "unknown":
 			if model[op.Slot] != nil {
-				return v, "", fmt.Errorf("bad case: 'unknown' op on an announced slot at step %d", i)
+				return v, "", fmt.Errorf("bad case: 'unknown' op on an announced slot at step %d", i), cache, model
 			}
 			m := hdr()
 			m.Sets = append(m.Sets, wire.Set{Kind: "raw", RawID: sl.ID, RawBody: []byte{0, 1, 2, 3, 4, 5, 6, 7, 8, 9, 10, 11}})
 			res, perr := cache.decodeFlow(addr, m.Bytes())
 			if perr != nil {
-				return v, "panic", step("%v", perr)
+				return v, "panic", step("%v", perr), cache, model
 			}
 			if len(res.Recs) != 0 {
-				return v, "foreign-template", step("data for a template this exporter never announced yielded %d records (decoded with another exporter's or id's template)", len(res.Recs))
+				return v, "foreign-template", step("data for a template this exporter never announced yielded %d records (decoded with another exporter's or id's template)", len(res.Recs)), cache, model
 			}
 			if res.Err == nil || !strings.Contains(strings.ToLower(res.Err.Error()), "unknown") {
-				return v, "not-reported", step("data for an unannounced template is not reported as unknown: err=%v", res.Err)
+				return v, "not-reported", step("data for an unannounced template is not reported as unknown: err=%v", res.Err), cache, model
 			}
 		case "peerget":
 			if c.Proto != "ipfix" {
@@ -340,18 +346,18 @@ func runC04(c *c04Case) (v verdict, sig string, err error) {
 			tp := model[op.Slot]
 			if tp == nil {
 				if gerr == nil {
-					return v, "peer-foreign", step("peer Get for an unannounced (exporter, id) returned a template (id %d, %d fields)", resp.TemplateID, len(resp.FieldSpecifiers))
+					return v, "peer-foreign", step("peer Get for an unannounced (exporter, id) returned a template (id %d, %d fields)", resp.TemplateID, len(resp.FieldSpecifiers)), cache, model
 				}
 				continue
 			}
 			if gerr != nil {
-				return v, "peer-missing", step("peer Get failed for an announced template: %v", gerr)
+				return v, "peer-missing", step("peer Get failed for an announced template: %v", gerr), cache, model
 			}
 			if resp.TemplateID != tp.ID || !sameSpec(resp.FieldSpecifiers, tp.Fields) || !sameSpec(resp.ScopeFieldSpecifiers, tp.Scope) {
-				return v, "peer-wrong", step("peer Get returned a template other than the latest announced one")
+				return v, "peer-wrong", step("peer Get returned a template other than the latest announced one"), cache, model
 			}
 		default:
-			return v, "", fmt.Errorf("bad case: op %q", op.Op)
+			return v, "", fmt.Errorf("bad case: op %q", op.Op), cache, model
 		}
 	}
 	// classification
@@ -402,7 +408,7 @@ func runC04(c *c04Case) (v verdict, sig string, err error) {
 		v.label(op.Op == "announce+data", "announce-with-data")
 	}
 	v.NT = dataAfterRe || sharedID || full
-	return v, "", nil
+	return v, "", nil, cache, model
 }
 
 func TestC04(t *testing.T) {
